@@ -229,6 +229,10 @@ def main(argv: list[str]) -> int:
     n_model = 0
     if build["ok"]:
         reqs = []
+        if hasattr(plugin, "skip_model"):
+            for c, r in zip(cases, results):
+                if c.get("model", True) and plugin.skip_model(c, r["obs"]):
+                    c["model"] = False
         for c, r in zip(cases, results):
             if c.get("model", True):
                 mcase = plugin.model_case(c, r["obs"]) if hasattr(plugin, "model_case") else c["case"]
